@@ -64,7 +64,7 @@ class RealSession:
         if ref[0] == "tok":
             return self.tokens[ref[1]] if ref[1] < len(self.tokens) else "missing"
         if ref[0] == "garbage":
-            return ["", "garbage", "Zm9vYmFy", "a.b.c", "eyJhbGciOiJub25lIn0.e30."][ref[1] % 5]
+            return ["x", "garbage", "Zm9vYmFy", "a.b.c", "eyJhbGciOiJub25lIn0.e30."][ref[1] % 5]
         raise ValueError(ref)
 
     def harvest(self):
@@ -459,7 +459,10 @@ def pick_token(rs, x, want=None, p_wrong=0.15, xx=None):
 def materialise(rs, p):
     k = p[0]
     if k == "authz":
-        return p
+        sc = list(p[3])
+        if rs.oidc and "openid" not in sc:     # an OIDC authorization request must ask for openid
+            sc.insert(0, "openid")
+        return ("authz", p[1], p[2], sc)
     if k == "natural":
         # the next step an honest client would take
         if rs.parsed and len(rs.parsed) - 1 not in rs.processed and "error" not in rs.parsed[-1]:
@@ -509,7 +512,10 @@ def materialise(rs, p):
         kw = None if p[2] < 0.7 else (p[2] < 0.85)
         return ("proc", idx, kw)
     if k == "userinfo":
-        return ("userinfo", pick_token(rs, p[1], 1, 0.25))
+        ref = pick_token(rs, p[1], 1, 0.25)
+        if not rs.oidc:      # the OAuth2 flavour has no userinfo endpoint
+            return ("introspect", rs._owner_client(ref, CLIENTS[0]), ref)
+        return ("userinfo", ref)
     if k == "introspect":
         ref = pick_token(rs, p[1], None)
         owner = rs._owner_client(ref, CLIENTS[0])
